@@ -192,6 +192,8 @@ func oneFactorLayouts() []gen.Layout {
 	mod(func(l *gen.Layout) { l.EmptyAnn = 2; l.NL = "\r\n" })
 	mod(func(l *gen.Layout) { l.EmptyAnn = 3 })
 	mod(func(l *gen.Layout) { l.EmptyAnn = 4; l.NL = "\r" })
+	mod(func(l *gen.Layout) { l.ColonTab = true })
+	mod(func(l *gen.Layout) { l.ColonTab = true; l.QuoteNames = true; l.Multi = true })
 	mod(func(l *gen.Layout) { l.NoteBelow = true })
 	mod(func(l *gen.Layout) { l.NoteBelow = true; l.Multi = true; l.NL = "\r\n" })
 	mod(func(l *gen.Layout) { l.NoteBelow = true; l.NL = "\r"; l.GapTab = true })
